@@ -306,10 +306,11 @@ def fifo_history(r):
     """serial line: replies only while something is outstanding (spec view), in order"""
     items = [("made",)] if r.random() < 0.85 else []
     out, conn = 0, bool(items)
+    unit = r.choice([1, 1, 2, 3, 17])        # one slave per history; its id may coincide with a later transaction id
     for _ in range(r.randrange(3, 12)):
         k = r.random()
         if k < 0.4:
-            items.append(("exec", 1))
+            items.append(("exec", unit))
             out += 1 if conn else 0
         elif k < 0.8 and out > 0:
             items.append(("reply", [(0, 0, None, r.randrange(1, 60000))]))
